@@ -356,4 +356,170 @@ Section Refine.
     - intros e He. cbn [to_pgraph pnodes]. apply in_seq. apply entries_In in He.
       destruct He as [re [Hr _]]. pose proof (dom _ _ Hr). lia.
   Qed.
+
+  (** * Part C: which nodes of the transformed plan are ancestors of a pruning root *)
+  Lemma ids_of_registered i re :
+    reg i = Some re -> exists ce, In ({| enode := i; esource := is_src re; estale := st i |}, ce) ids.
+  Proof. intros Hr. apply entry_ids_complete. apply entries_In. cbn. exists re. auto. Qed.
+
+  Lemma ids_inv e ce :
+    In (e, ce) ids ->
+    exists re, reg (enode e) = Some re /\ esource e = is_src re /\ estale e = st (enode e) /\
+               enode e < n /\ n <= ce.
+  Proof.
+    intros H. apply entry_ids_In in H. destruct H as [He Hc]. apply entries_In in He.
+    destruct He as [re [Hr [H1 H2]]]. exists re. repeat split; auto. eapply dom; eauto.
+  Qed.
+
+  Lemma es_NoDup : NoDup (map enode es).
+  Proof. apply R0_tctx. Qed.
+
+  (** the redirected output *)
+  Lemma redirect_cases :
+    match output with
+    | None => redirect n es output = None
+    | Some o => match reg o with
+                | Some re => exists e ce, In (e, ce) ids /\ enode e = o /\
+                                          redirect n es output = Some (read_id ce)
+                | None => redirect n es output = Some o
+                end
+    end.
+  Proof.
+    destruct output as [o|]; [|reflexivity]. destruct (reg o) as [re|] eqn:Er.
+    - destruct (ids_of_registered o re Er) as [ce Hin]. eexists; exists ce. split; [exact Hin|].
+      split; [reflexivity|]. exact (redirect_registered es n _ ce es_NoDup Hin).
+    - apply redirect_unregistered. rewrite entries_registered. intros H. now apply H.
+  Qed.
+
+  Lemma roots_In v :
+    In v roots <->
+    (exists e ce, In (e, ce) ids /\ estale e = true /\ v = write_id ce) \/ redirect n es output = Some v.
+  Proof.
+    unfold prune_roots. rewrite in_app_iff, required_writes_iff.
+    destruct (redirect n es output) as [r|]; cbn [opt_list In]; split.
+    - intros [H | [H | []]]; [now left | right; now subst].
+    - intros [H | H]; [now left | right; left; now inversion H].
+    - intros [H | []]. now left.
+    - intros [H | H]; [now left | discriminate].
+  Qed.
+
+  Lemma root_write e ce : In (e, ce) ids -> estale e = true -> In (write_id ce) roots.
+  Proof. intros Hin Hst. apply roots_In. left. now exists e, ce. Qed.
+
+  (** an original node is a root only as the (unregistered) output *)
+  Lemma root_original i : i < n -> (In i roots <-> output = Some i /\ reg i = None).
+  Proof.
+    intros Hi. rewrite roots_In. pose proof redirect_cases as Hc. split.
+    - intros [[e [ce [Hin [_ Heq]]]] | Hr].
+      + apply ids_inv in Hin. destruct Hin as [_ [_ [_ [_ [_ Hge]]]]]. unfold write_id in Heq. lia.
+      + destruct output as [o|]; [|rewrite Hc in Hr; discriminate].
+        destruct (reg o) as [re|] eqn:Er.
+        * destruct Hc as [e [ce [Hin [_ Hc]]]]. rewrite Hc in Hr. inversion Hr.
+          apply ids_inv in Hin. destruct Hin as [_ [_ [_ [_ [_ Hge]]]]]. unfold read_id in *. lia.
+        * rewrite Hc in Hr. inversion Hr; subst. auto.
+    - intros [Ho Hr]. right. rewrite Ho in Hc. rewrite Hr in Hc. rewrite Ho. exact Hc.
+  Qed.
+
+  (** the read node of an entry is a root exactly when its node is the output *)
+  Lemma root_read e ce : In (e, ce) ids -> (In (read_id ce) roots <-> output = Some (enode e)).
+  Proof.
+    intros Hin. rewrite roots_In. pose proof redirect_cases as Hc. split.
+    - intros [[e' [ce' [Hin' [Hst' Heq]]]] | Hr].
+      + exfalso. destruct (entry_ids_order _ _ _ _ _ _ Hin Hin') as [[-> ->] | [H | H]];
+          unfold next_id, read_id, write_id in *; [lia | destruct (estale e); lia | rewrite Hst' in H; lia].
+      + destruct output as [o|]; [|rewrite Hc in Hr; discriminate].
+        destruct (reg o) as [re|] eqn:Er.
+        * destruct Hc as [e' [ce' [Hin' [Heq Hc]]]]. rewrite Hc in Hr. inversion Hr as [Hrd].
+          destruct (entry_ids_order _ _ _ _ _ _ Hin Hin') as [[-> _] | [H | H]];
+            unfold next_id, read_id in *; [now subst | destruct (estale e); lia | destruct (estale e'); lia].
+        * rewrite Hc in Hr. inversion Hr; subst. pose proof (out_ok _ eq_refl).
+          apply ids_inv in Hin. destruct Hin as [_ [_ [_ [_ [_ Hge]]]]]. unfold read_id in *. lia.
+    - intros Ho. right. rewrite Ho. exact (redirect_registered es n e ce es_NoDup Hin).
+  Qed.
+
+  Lemma Q_edge v w : edge (to_graph Q) v w <-> exists x, In x (pedges Q) /\ esrc x = v /\ edst x = w.
+  Proof. apply pedge_iff'. Qed.
+
+  Lemma P_no_loop a k : ~ In (mke a a k) (pedges P).
+  Proof. intros H. apply P_edge_lt in H. cbn in H. lia. Qed.
+
+  Lemma active_pulls c : activeg c = true -> pullsg c = true.
+  Proof.
+    destruct (reg c) as [rc|] eqn:Er; [|now rewrite (need_unregistered_eq reg st output p c Er)].
+    unfold active_g, pulls_g. destruct (nth_error p c) as [nd|] eqn:Ec.
+    - rewrite (need_registered reg st output p c nd rc Ec Er). cbn. intros H. now apply andb_true_iff in H.
+    - apply nth_error_None in Ec. now rewrite need_table_overflow.
+  Qed.
+
+  Lemma reach_root_anc v w : edge (to_graph Q) v w -> In w roots -> anc_of (to_graph Q) roots v.
+  Proof. intros He Hw. right. exists w. split; [assumption | now apply reach1]. Qed.
+
+  (** the heart: an original node is an ancestor of a root (a write node of a stale entry, or the
+      redirected output) exactly when L1 says it computes.  Backward induction on the index. *)
+  Lemma needed_original : forall k i,
+    n <= i + k -> i < n -> (anc_of (to_graph Q) roots i <-> activeg i = true).
+  Proof.
+    induction k as [|k IH]; intros i Hk Hi; [lia|].
+    destruct (nth_error p i) as [nd|] eqn:Ei; [|apply nth_error_None in Ei; lia].
+    pose proof R0_tctx as Ht.
+    destruct (reg i) as [re|] eqn:Er.
+    - (* registered *)
+      destruct (ids_of_registered i re Er) as [ce Hin].
+      unfold active_g. rewrite (need_registered reg st output p i nd re Ei Er). cbn [snd].
+      rewrite andb_true_iff, negb_true_iff. split.
+      + intros Ha. apply anc_of_step in Ha. destruct Ha as [Hr | [w [He _]]].
+        * apply (root_original i Hi) in Hr. destruct Hr as [_ Hr]. congruence.
+        * apply Q_edge in He. destruct He as [x [Hx [Hs _]]].
+          destruct (add_all_out_registered x _ _ _ _ ce Ht Hin (P_no_loop i) Hx Hs) as [_ [H1 H2]].
+          cbn in H1, H2. auto.
+      + intros [Hst Hso].
+        destruct (C09_write_then_read P n es _ ce Ht Hin) as [_ [_ Hw]]. cbn in Hw.
+        destruct (Hw Hst Hso) as [Hval _].
+        apply (reach_root_anc i (write_id ce)); [apply pedge_iff; now exists (KPos 1)|].
+        now apply (root_write _ ce Hin).
+    - (* no value store *)
+      assert (Hnr : ~ In i (map enode es)) by (rewrite entries_registered; intros H; now apply H).
+      rewrite <- (need_unregistered_eq reg st output p i Er), (pulls_unfold reg st output p wf i nd Ei Er).
+      split.
+      + intros Ha. apply anc_of_step in Ha. destruct Ha as [Hr | [w [He Hw]]].
+        * apply (root_original i Hi) in Hr. now left.
+        * right. apply Q_edge in He. destruct He as [x [Hx [Hs Hd]]].
+          assert (Hnr' : ~ In (esrc x) (map enode es)) by now rewrite Hs.
+          destruct (add_all_out_unregistered x _ _ _ Ht Hx ltac:(lia) Hnr')
+            as [Hp | [e' [c' [Hin' [Hst' [Hso' [_ [kk Hp]]]]]]]].
+          -- destruct (P_edge_lt x Hp) as [H1 H2]. rewrite Hs, Hd in *.
+             destruct (nth_error p w) as [ndw|] eqn:Ew; [|apply nth_error_None in Ew; lia].
+             exists w, ndw. split; [exact Ew|]. split.
+             ++ rewrite <- Hs. apply P_edge_pred; [assumption | now rewrite Hd].
+             ++ apply active_pulls. apply (IH w); [lia | assumption | assumption].
+          -- rewrite Hs in Hp. destruct (P_edge_lt _ Hp) as [H1 H2]. cbn in H1, H2.
+             destruct (nth_error p (enode e')) as [ndw|] eqn:Ew; [|apply nth_error_None in Ew; lia].
+             exists (enode e'), ndw. split; [exact Ew|]. split.
+             ++ apply (P_edge_pred _ ndw Hp Ew).
+             ++ destruct (ids_inv _ _ Hin') as [re' [Hr' [_ [Hst'' _]]]].
+                unfold pulls_g. rewrite (need_registered reg st output p _ ndw re' Ew Hr'). cbn. congruence.
+      + intros [Ho | [c [ndc [Hc [Hin Hpc]]]]].
+        * left. apply (root_original i Hi). auto.
+        * pose proof (wf c ndc Hc i Hin) as Hlt.
+          assert (Hcn : c < n) by (apply nth_error_Some; congruence).
+          destruct (P_pred_edge i c ndc Hc Hin) as [kk Hx].
+          assert (Hkeep : edge (to_graph Q) i c).
+          { apply pedge_iff. exists kk. apply add_all_keeps; [exact Ht | exact Hx | exact Hnr]. }
+          assert (Hact : activeg c = true -> anc_of (to_graph Q) roots i).
+          { intros Hact. apply (anc_of_pred _ _ i c Hkeep). apply (IH c); [lia | assumption | assumption]. }
+          destruct (reg c) as [rc|] eqn:Erc.
+          -- unfold pulls_g in Hpc. rewrite (need_registered reg st output p c ndc rc Hc Erc) in Hpc.
+             cbn in Hpc. destruct (is_src rc) eqn:Esrc.
+             ++ destruct (ids_of_registered c rc Erc) as [cc Hinc].
+                pose proof (barrier_unregistered P n es _ cc _ Ht Hinc Hpc Esrc Hx eq_refl Hnr) as Hb.
+                cbn [esrc mke] in Hb.
+                apply (reach_root_anc i (write_id cc)); [apply pedge_iff; now exists KDep|].
+                now apply (root_write _ cc Hinc).
+             ++ apply Hact. unfold active_g. rewrite (need_registered reg st output p c ndc rc Hc Erc).
+                cbn. now rewrite Hpc, Esrc.
+          -- apply Hact. now rewrite <- (need_unregistered_eq reg st output p c Erc).
+  Qed.
+
+  Theorem ancestor_iff_active i : i < n -> (anc_of (to_graph Q) roots i <-> activeg i = true).
+  Proof. intros Hi. apply (needed_original n i); lia. Qed.
 End Refine.
